@@ -198,8 +198,8 @@ def judge(sess, res, check_frame=True):
         toks = text.split()
         if len(toks) >= 2 and toks[1] == 'begin_indep':
             indep = True
-        if len(toks) >= 2 and toks[1] in ('end_indep',):
-            indep = False
+        if len(toks) >= 2 and toks[1] in ('end_indep', 'redef'):
+            indep = False               # (redef leaves independent mode, synchronising the record count)
         if len(toks) >= 2 and toks[1] in ('sync', 'close') and not indep:
             exp.dirty.clear()
         if len(toks) >= 2 and toks[1] in ('put', 'iput', 'bput', 'wait', 'fill_var_rec', 'redef', 'enddef', '_enddef', 'open', 'create'):
